@@ -3,14 +3,35 @@
    Setting: a spliced isoform T of the gene, a read without polyA whose exons are T's exons with the two outer ends moved inside T's
    terminal exons (exact_read).  The profile constructors are C19's models (Intervals.v); their characterisation theorems
    (OvsReadProofs, FeatureCountsProofs, NosProofs, ProfileProofs, SplitProofs) are used, not re-proved.
-     G0 sorted_set_spec            sorted(set(...)) : strictly sorted, duplicate free, same elements
-     G1 exact_intron_read_profile  every read intron is an annotated intron (1); gene side: 1 iff T's intron, -1 only inside T's span
-     G2 exact_split_read_profile   every read exon is hit (1)   [corner: first read exon shorter than minimal_exon_overlap]
+     G0 sorted_set_spec            sorted(set(...)) : strictly sorted, duplicate free, start-sorted, same elements
+     G1 exact_intron_read_profile  every read intron is an annotated intron (1); gene side: 1 iff T's intron, -1 only inside T's span, never -2
+     G2 exact_split_read_profile   every read exon is hit (1); T's split-exon profile equals the read's wherever the read's is not 0
      G3 exact_profiles_clean       the profiles send assign_to_isoform to match_consistent
-     G4 exact_T_compatible         T is among the profile-compatible isoforms, and among the split-exon matching ones
+     G4 exact_T_compatible         T is among the profile-compatible isoforms, and among the split-exon matching ones (no corner hypothesis)
      G5 compatible_have_introns    every compatible isoform is spliced (is_fsm is defined)
-     G6 exact_T_events_consistent  FSM, terminal-site matches only  [corner: read end inside a split block by less than minimal_exon_overlap]
-     exact_match_unique / exact_match_reports_T  the composition with layer 1 *)
+     G6 exact_T_events_consistent  the match event is FSM and the elongation events are terminal-site matches
+     exact_match_unique            T the only compatible isoform: assign = (unique, [T]) with consistent events
+     exact_match_reports_T         composition with compatible_reports_T_incl (hypotheses: T survives the score resolution; the other
+                                   compatible isoforms have consistent events)
+     exact_match_reports_T_strong  the second hypothesis removed: the isoforms that reach the event construction pass the split-exon
+                                   matching step, T's anchor blocks are theirs as well, and their events are consistent (G6_other)
+   Hypotheses.
+     gene_ok d isos   (decidable) ids pairwise distinct; per isoform: exons well formed and separated by >= 1 base (IntervalsSpec.gapped),
+                      coordinates >= 0 (split_exons uses -1 as a sentinel), introns longer than delta (H1 of the C19 statement)
+     H2 d (introns T) the read's introns are more than delta apart (H2 of the C19 statement)
+     parameters       0 <= delta, 0 < minimal_exon_overlap, 0 <= min_abs_exon_overlap, delta <= minor_exon_extension (G6 only);
+                      0 < minimal_intron_absence_overlap is NOT needed
+     first_exon_ok    (G2, G3) the first read exon is at least minimal_exon_overlap long, or the read start is the first base of its split block
+                      or at least minimal_exon_overlap bases before its end.  The comparator overlaps_at_least_when_overlap is not symmetric:
+                      a read exon strictly inside a block and ending with it must overlap it by minimal_exon_overlap bases; the LAST read exon
+                      needs nothing (it starts with a block).
+     corner_ok        (G6 and the compositions) first_exon_ok and [ both read ends well placed in their split blocks (ends_ok, decidable)
+                      or minimal_exon_overlap <= delta + 1 ].  A read end inside a block by fewer than minimal_exon_overlap bases leaves that
+                      block unhit; the neighbouring block becomes the first/last common exon and the read overhangs it by up to
+                      minimal_exon_overlap - 1 bases: a minor exon_elongation event when that exceeds delta.  The default preset has
+                      minimal_exon_overlap = 5 <= delta + 1 = 7, so there only first_exon_ok is left.
+   Every added hypothesis has a ..._refuted example at the end of the file; H1 / H2 are the hypotheses of the C19 characterisation
+   (FeatureCountsProofs.value_clean) that is used - no counterexample was found for them in the exact-read setting. *)
 From Coq Require Import ZArith NArith QArith List Bool Lia ZifyBool.
 From IQ Require Profile.
 From IQ Require Import CorrSupport Intervals IntervalsSpec IntervalsProofs IntervalsProofs2 OvsReadProofs NosProofs SplitProofs ProfileProofs
@@ -941,7 +962,7 @@ Lemma matched_incl_em g ri rs r tid ids : rp ri <> [] -> In tid (compatible_ids 
 Proof. intros Hrp Hin Hem. unfold matched. cbv zeta.
   replace (length (rp ri) =? 0)%nat with false by (destruct (rp ri); [contradiction|reflexivity]).
   remember (compatible_ids P g ri rs r) as C eqn:EC. remember (find_matching (split_prof g) g rs C) as em eqn:Eem.
-  set (m1 := if 1 <? Z.of_nat (length C) then match em with [] => C | em0 => em0 end else C).
+  set (m1 := if 1 <? Z.of_nat (length C) then match em with [] => C | z :: l => z :: l end else C).
   assert (Hsub1: incl m1 em).
   { unfold m1. destruct (1 <? Z.of_nat (length C)) eqn:E1.
     - destruct em as [|e0 em']; [destruct Hem|apply incl_refl].
